@@ -82,3 +82,72 @@ Proof.
   replace (S (S (length (events d))) - length (events d))%nat with 2%nat by lia.
   reflexivity.
 Qed.
+
+(* ---- the other principal writers: exactly one record, with the arguments of the command -------- *)
+Lemma events_write_key k nv now d : events (snd (write_key k nv now d)) = events d.
+Proof.
+  unfold write_key, touch. destruct (fm_get k (idx d)) as [m0|]; cbn [fst snd].
+  - destruct (expired _ now _).
+    { destruct nv; [unfold new_key, alloc_val, alloc_key; destruct m0; cbn; reflexivity|reflexivity]. }
+    destruct (m_val _); [reflexivity|].
+    unfold ss_get. destruct (key_of _ _) as [nm ex]. destruct (fm_get _ (disk _)) as [[kr o|vv]|];
+      try (destruct nv; [unfold new_key, alloc_val, alloc_key; cbn; reflexivity|reflexivity]); reflexivity.
+  - destruct nv; [unfold new_key, alloc_val, alloc_key; cbn; reflexivity|reflexivity].
+Qed.
+
+Lemma events_signal k m dd : events (signal k m dd) = EvSignal k :: events dd.
+Proof.
+  unfold signal. destruct (fm_get k (idx dd)) as [m'|]; [|reflexivity].
+  destruct (Nat.eqb (m_key m') (m_key m)); reflexivity.
+Qed.
+Lemma events_set_val_of m vv dd : events (set_val_of m vv dd) = events dd.
+Proof. unfold set_val_of. destruct (m_val m); reflexivity. Qed.
+
+Lemma one_record p k ev d : events ev = events d ->
+  forall m, new_pops d (notify p (signal k m ev)) = [p].
+Proof.
+  intros He m. unfold new_pops, notify, emit, with_events. cbn [events]. rewrite events_signal, He. cbn [length].
+  replace (S (S (length (events d))) - length (events d))%nat with 2%nat by lia. reflexivity.
+Qed.
+
+Lemma hset_record k f v now d n d' : api_hset k f v now d = Ok n d' -> new_pops d d' = [PHSet k f v].
+Proof.
+  unfold api_hset. pose proof (events_write_key k new_hash now d) as W.
+  destruct (write_key k new_hash now d) as [[m|] d1]; [|discriminate]. cbn [snd] in W.
+  destruct (as_hash m d1); [|discriminate]. destruct (hash_hset f v h). intro H. inversion H; subst.
+  apply one_record. now rewrite events_set_val_of.
+Qed.
+Lemma sadd_record k ms now d n d' : api_sadd k ms now d = Ok n d' -> new_pops d d' = [PSAdd k ms].
+Proof.
+  unfold api_sadd. pose proof (events_write_key k new_set now d) as W.
+  destruct (write_key k new_set now d) as [[m|] d1]; [|discriminate]. cbn [snd] in W.
+  destruct (as_set m d1); [|discriminate]. destruct (set_sadd ms s). intro H. inversion H; subst.
+  apply one_record. now rewrite events_set_val_of.
+Qed.
+Lemma zadd_record k m s now d n d' : api_zadd_gen 0 k m s now d = Ok n d' -> new_pops d d' = [PZAdd k m s].
+Proof.
+  unfold api_zadd_gen. pose proof (events_write_key k new_zset now d) as W.
+  destruct (write_key k new_zset now d) as [[mt|] d1]; [|discriminate]. cbn [snd] in W.
+  destruct (as_zset mt d1); [|discriminate]. cbn [Z.eqb].
+  destruct (zset_zadd m s z). intro H. inversion H; subst.
+  apply one_record. now rewrite events_set_val_of.
+Qed.
+Lemma incr_record k delta decr now d n d' : api_incr_gen k delta decr false now d = Ok (Some n) d' ->
+  new_pops d d' = [PSet k (format_int n) true 0].
+Proof.
+  unfold api_incr_gen. pose proof (events_write_key k new_str now d) as W.
+  destruct (write_key k new_str now d) as [[m|] d1]; [|discriminate]. cbn [snd] in W.
+  destruct (as_str m d1); [|discriminate].
+  destruct (if decr then _ else _) as [[n' s']|]; [|discriminate]. intro H. inversion H; subst.
+  apply one_record. now rewrite events_set_val_of.
+Qed.
+Lemma push_record left k vs now d n d' : api_push left k vs now d = Ok n d' ->
+  new_pops d d' = [if left then PLPush k vs else PRPush k vs].
+Proof.
+  unfold api_push. pose proof (events_write_key k new_list now d) as W.
+  destruct (write_key k new_list now d) as [[m|] d1]; [|discriminate]. cbn [snd] in W.
+  destruct (as_list m d1); [|discriminate]. intro H. inversion H; subst.
+  unfold new_pops, notify, emit, with_events. cbn [events]. rewrite events_signal. cbn [events].
+  rewrite events_set_val_of, W. cbn [length].
+  replace (S (S (S (length (events d)))) - length (events d))%nat with 3%nat by lia. reflexivity.
+Qed.
